@@ -34,7 +34,7 @@ pub struct Sel { pub rk: Option<Rk>, pub rrk: bool, pub uv: UvR }
 pub struct RegOp { pub org: Org, pub allow_localhost: bool, pub rp: Option<String>, pub user: Vec<u8>, pub challenge: Vec<u8>, pub algs: Vec<i64>,
     pub exclude: Option<Vec<Vec<u8>>>, pub sel: Option<Sel>, pub ext: Option<CExt>, pub cd: CdMode }
 #[derive(Clone, Debug)]
-pub struct AuthOp { pub org: Org, pub allow_localhost: bool, pub rp: Option<String>, pub challenge: Vec<u8>, pub allow: Option<Vec<Vec<u8>>>, pub allow_last: bool, pub uv: UvR,
+pub struct AuthOp { pub org: Org, pub allow_localhost: bool, pub rp: Option<String>, pub challenge: Vec<u8>, pub allow: Option<Vec<Vec<u8>>>, pub allow_last: bool, pub allow_refs: Vec<usize>, pub uv: UvR,
     pub ext: Option<CExt>, pub cd: CdMode }
 
 fn uvr(u: UvR) -> UserVerificationRequirement { match u { UvR::Required => UserVerificationRequirement::Required, UvR::Preferred => UserVerificationRequirement::Preferred, UvR::Discouraged => UserVerificationRequirement::Discouraged } }
@@ -124,6 +124,7 @@ fn run_generic<S: Inner + 'static>(ctx: &mut Ctx, prop: &str, w: &World, inner: 
     ctx.line(&format!("au.reset {} {} {} {} {}", prop, w.kind.name(), w.counter_on as u8, w.id_len, w.hm.name()), "");
     for p in &w.preload { ctx.line(&format!("au.load {}", passkey_line(p)), ""); }
     let mut last_id: Option<Vec<u8>> = None;
+    let mut reg_ids: Vec<Vec<u8>> = w.preload.iter().map(|p| p.credential_id.to_vec()).collect();
     for st in steps {
         *uvst.lock().unwrap() = st.uv;
         client.authenticator_mut().store_mut().faults = st.faults.clone();
@@ -156,7 +157,7 @@ fn run_generic<S: Inner + 'static>(ctx: &mut Ctx, prop: &str, w: &World, inner: 
                     let (s1, s2) = match &p.extensions.hmac_secret { Some(h) => (hexf(&h.cred_with_uv), opt_hex(h.cred_without_uv.as_deref())), None => ("N".into(), "N".into()) };
                     format!("{}:{}:{}:{}:{}:{}", hexf(&p.credential_id), hexf(&d), hexf(&x), hexf(&y), s1, s2)
                 }).unwrap_or("N".into());
-                if let Some(Ok(c)) = &res { last_id = Some(c.raw_id.to_vec()); }
+                if let Some(Ok(c)) = &res { last_id = Some(c.raw_id.to_vec()); reg_ids.push(c.raw_id.to_vec()); }
                 let rs = match res { None => "panic".to_string(), Some(Err(e)) => format!("err:{}", werr(&e)),
                     Some(Ok(c)) => format!("ok:{}:{}:{}:{}:{}:{}:{}:{}:{}", hexf(c.id.as_bytes()), hexf(&c.raw_id), hexf(&c.response.client_data_json), hexf(&c.response.authenticator_data),
                         c.response.public_key.as_ref().map(|k| hexf(k)).unwrap_or("N".into()), c.response.public_key_algorithm, hexf(&c.response.attestation_object),
@@ -171,6 +172,11 @@ fn run_generic<S: Inner + 'static>(ctx: &mut Ctx, prop: &str, w: &World, inner: 
             COp::Auth(a0) => {
                 let mut a1 = a0.clone();
                 if a1.allow_last { if let Some(id) = &last_id { a1.allow = Some(vec![id.clone()]); } }
+                if !a1.allow_refs.is_empty() && !reg_ids.is_empty() {
+                    let mut l = a1.allow.clone().unwrap_or_default();
+                    for k in &a1.allow_refs { l.push(reg_ids[k % reg_ids.len()].clone()); }
+                    a1.allow = Some(l);
+                }
                 let a = &a1;
                 let Some((of, url)) = origin_fields(&a.org, a.rp.as_deref(), a.allow_localhost) else { ctx.stat("cl.url_parse_error"); continue; };
                 client = client.allows_insecure_localhost(a.allow_localhost);
@@ -214,5 +220,5 @@ pub fn simple_reg(ctx: &mut Ctx, url: &str, rp: Option<&str>) -> RegOp {
         exclude: None, sel: None, ext: None, cd: CdMode::Default }
 }
 pub fn simple_auth(ctx: &mut Ctx, url: &str, rp: Option<&str>) -> AuthOp {
-    AuthOp { org: Org::Web(url.to_string()), allow_localhost: false, rp: rp.map(|s| s.to_string()), challenge: ctx.rng.bytes(32), allow: None, allow_last: false, uv: UvR::Preferred, ext: None, cd: CdMode::Default }
+    AuthOp { org: Org::Web(url.to_string()), allow_localhost: false, rp: rp.map(|s| s.to_string()), challenge: ctx.rng.bytes(32), allow: None, allow_last: false, allow_refs: vec![], uv: UvR::Preferred, ext: None, cd: CdMode::Default }
 }
